@@ -1,6 +1,9 @@
 package process
 
 import (
+	"fmt"
+	"math"
+
 	"github.com/angelsolaorbaiceta/inkfem/log"
 	"github.com/angelsolaorbaiceta/inkfem/preprocess"
 	"github.com/angelsolaorbaiceta/inkmath/lineq"
@@ -35,8 +38,8 @@ func computeGlobalDisplacements(
 		progressChan = make(chan lineq.IterativeSolverProgress)
 		solutionChan = make(chan *lineq.Solution)
 		solver       = lineq.PreconditionedConjugateGradientSolver{
-			MaxError:       options.MaxDisplacementsError,
-			MaxIter:        sysVector.Length(),
+			MaxError:       0.5 * options.MaxDisplacementsError,
+			MaxIter:        10 * sysVector.Length(),
 			Preconditioner: computePreconditioner(sysMatrix),
 			ProgressChan:   progressChan,
 		}
@@ -55,6 +58,7 @@ func computeGlobalDisplacements(
 	globalDispSolution := <-solutionChan
 
 	log.EndSolveSysEqs(globalDispSolution.IterCount, globalDispSolution.MinError)
+	ensureSolutionIsGoodEnough(sysMatrix, sysVector, globalDispSolution.Solution, options.MaxDisplacementsError)
 
 	return &GlobalDisplacementsVector{
 		Vector:   globalDispSolution.Solution,
@@ -76,5 +80,25 @@ func computePreconditioner(sysMat mat.ReadOnlyMatrix) mat.ReadOnlyMatrix {
 func logProgress(ch <-chan lineq.IterativeSolverProgress) {
 	for progress := range ch {
 		log.SolveSysProgress(progress)
+	}
+}
+
+// ensureSolutionIsGoodEnough panics if the solution of the system of equations contains
+// values which aren't finite numbers, or the error of any of the equations is greater
+// than the maximum allowed error.
+func ensureSolutionIsGoodEnough(
+	sysMatrix mat.ReadOnlyMatrix,
+	sysVector, solution vec.ReadOnlyVector,
+	maxError float64,
+) {
+	errors := sysVector.Minus(sysMatrix.TimesVector(solution))
+
+	for i := 0; i < errors.Length(); i++ {
+		if err := math.Abs(errors.Value(i)); !(err <= maxError) || math.IsInf(solution.Value(i), 0) {
+			panic(fmt.Sprintf(
+				"Couldn't solve the system of equations: error %g in equation %d (max allowed is %g)",
+				err, i, maxError,
+			))
+		}
 	}
 }
